@@ -2,7 +2,7 @@
 # usage: tools/seedkeep.sh <Cxx> <a|b> <crate> <checks...>   — verify a sub-agent's change and keep it under /verif/seeded/<Cxx>-<x>/
 set -u
 P="$1"; X="$2"; CRATE="$3"; shift 3
-SRC=/tmp/mut/out/$P/$X
+SRC=${SEEDSRC:-/tmp/mut/out}/$P/$X
 DST=/verif/seeded/$P-$X
 mkdir -p "$DST"
 cp "$SRC/patch.diff" "$SRC/demo_test.rs" "$DST/"
